@@ -58,10 +58,41 @@ func unmarshalFromYaml(yamlSpecs []byte) ([]OperationSpec, error) {
 			return nil, err
 		}
 
+		// yaml.v3 decodes numbers into int, JSON decoding gives float64. Make both syntaxes
+		// produce the same operations: unstructured.DeepCopy panics on int.
+		if doc.Object, err = jsonValue(doc.Object); err != nil {
+			return nil, fmt.Errorf("object: %w", err)
+		}
+		if doc.MergePatch, err = jsonValue(doc.MergePatch); err != nil {
+			return nil, fmt.Errorf("mergePatch: %w", err)
+		}
+		if doc.JSONPatch, err = jsonValue(doc.JSONPatch); err != nil {
+			return nil, fmt.Errorf("jsonPatch: %w", err)
+		}
+
 		specSlice = append(specSlice, doc)
 	}
 
 	return specSlice, nil
+}
+
+// jsonValue converts a value decoded from YAML to the types encoding/json produces.
+func jsonValue(v any) (any, error) {
+	if v == nil {
+		return nil, nil
+	}
+
+	data, err := json.Marshal(v)
+	if err != nil {
+		return nil, err
+	}
+
+	var out any
+	if err := json.Unmarshal(data, &out); err != nil {
+		return nil, err
+	}
+
+	return out, nil
 }
 
 func applyJQPatch(jqFilter string, fl filter.Filter, obj *unstructured.Unstructured) (*unstructured.Unstructured, error) {
